@@ -82,6 +82,9 @@ def run(tier, replay=None, pid=PID, profile=PROFILE, k=101, nq=16, nt=400, extra
     rep.notes["input_distribution"] = {k2: dict(sorted(v.items(), key=lambda kv: str(kv[0]))) for k2, v in dist.items()}
     wok = hc.wrapper_pairs()
     rep.notes["dispatcher_binding_under_family_preset"] = {"%s/%s" % k2: v for k2, v in wok.items() if v != "ok"} or "every family is bound under its preset"
+    bad = {"%s/%s" % (f["algo"], f["fam"]): f["why"] for f in hc.cfg()["fams"] if not f["understood"]}
+    if bad:
+        rep.notes["lane_configuration_not_understood"] = dict(bad, _consequence="header bound MAX_LANES used for these families; obligation gen_hfams_ok reported broken")
     rep.notes["pairs"] = ["%s/%s lanes=%d" % (f["algo"], f["fam"], f["lanes"]) for f in hc.cfg()["fams"]]
     mine = [v for v in rep.violations]
     if not ok and not mine:
